@@ -50,14 +50,14 @@ const char *__asan_default_options(void) { return "quarantine_size_mb=16:thread_
 
 enum { CL_SUB, CL_MP, CL_GEN, CL_FOURCC, CL_FLOWDEF, CL_MARGIN, CL_MARGIN_ODD, CL_ALIGN, CL_ALLOC_REFUSED,
        CL_MAP_REFUSED, CL_MAP_NEG, CL_MAP_SUB, CL_MAP_MISALIGNED, CL_MAP_WRITE, CL_RESIZE_OK, CL_RESIZE_EXT,
-       CL_RESIZE_REFUSED, CL_RESIZE_GRAN, CL_CHAIN, CL_COPY, CL_COPY_EXT, CL_DUP, CL_EXT_SHARED, CL_OUTDOM,
+       CL_RESIZE_REFUSED, CL_RESIZE_GRAN, CL_CHAIN, CL_COPY, CL_COPY_EXT, CL_FIELDS, CL_FIELDS_ODD_HEIGHT, CL_DUP, CL_EXT_SHARED, CL_OUTDOM,
        CL_TWO_MGR, CL_POOL, CL_SIZE_NOT_MULT_OF_ALIGN, CL_DEFAULT_MARGIN, CL_CLEAR, CL_CLEAR_SUB, CL_CLEAR_MULTI };
 static const char *const class_names[] = {
     "fmt_subsampled", "fmt_macropixel_gt1", "fmt_generated_planes", "fmt_fourcc_mgr", "mgr_from_flow_def",
     "margins_nonzero", "margins_odd", "align_nonzero", "alloc_not_multiple_refused",
     "map_refused", "map_negative_offset_accepted", "map_subwindow_accepted", "map_misaligned_refused", "map_write_window",
     "resize_accepted", "resize_extension_accepted", "resize_refused", "resize_misaligned_refused",
-    "resize_chain_ge2_with_extension", "copy_accepted", "copy_extending", "dup", "extension_on_shared",
+    "resize_chain_ge2_with_extension", "copy_accepted", "copy_extending", "split_into_fields", "split_into_fields_odd_number_of_lines", "dup", "extension_on_shared",
     "out_of_domain_accepted", "two_managers_used", "pool_depth_gt0", "row_not_multiple_of_align", "default_margins",
     "window_cleared", "clear_of_partial_width_window", "clear_with_multi_octet_pattern", NULL };
 
@@ -952,6 +952,59 @@ static void op_copy(struct ctx *c, bool replace)
     if (tp_u8(&c->t) & 0x80) { fill(c, d, "copy", what); verify_all(c, "copy", what); }
 }
 
+/* ubuf_split_fields: two more handles on the same memory, each showing every other line.  Row j of field f (0 = even/top, 1 = odd)
+ * is line 2j+f of the picture: it has to be one of the picture's lines, at that line's address; at most one line (the last one of a
+ * picture with an odd number of lines) is shown by neither field. */
+static void op_fields(struct ctx *c)
+{
+    struct fmt *f = &c->f;
+    int s = pick_live(c); if (s < 0) return;
+    struct hnd *h = &c->h[s];
+    if (h->v < 2) return;
+    c->hash = vp_hash_mix(c->hash, 0x900 + s);
+    struct ubuf *fld[2] = { NULL, NULL };      /* [1] = odd */
+    int err = ubuf_split_fields(h->u, &fld[1], &fld[0]);
+    char what[64]; snprintf(what, sizeof what, "ubuf_split_fields(h%d %dx%d)", s, h->hm * f->mp, h->v);
+    R("  %s -> %d\n", what, err);
+    if (!ubase_check(err) || !fld[0] || !fld[1]) { FAIL("C19/domain/fields", "%s fails (%d)", what, err); return; }
+    CL(CL_FIELDS); if (h->v & 1) CL(CL_FIELDS_ODD_HEIGHT);
+    int shown = 0;
+    for (int k = 0; k < 2 && !c->ret; k++) {
+        size_t hs = 0, vs = 0; uint8_t mp = 0;
+        if (!ubase_check(ubuf_pic_size(fld[k], &hs, &vs, &mp)) || (int)hs != h->hm * f->mp || mp != f->mp) { FAIL("C19/size/fields", "%s: field %d says %zu pixels per line, macropixel %u", what, k, hs, mp); break; }
+        if ((int)vs > (h->v + 1 - k) / 2) { FAIL("C19/size/fields", "%s: the %s field announces %zu lines, the picture has %d lines of that parity", what, k ? "odd" : "even", vs, (h->v + 1 - k) / 2); break; }
+        shown += (int)vs;
+        for (int p = 0; p < f->np && !c->ret; p++) {
+            size_t so = 0, sf = 0; uint8_t hsub, vsub, mps;
+            const uint8_t *qo = NULL, *qf = NULL;
+            if (!ubase_check(ubuf_pic_plane_size(h->u, f->pl[p].chroma, &so, &hsub, &vsub, &mps)) ||
+                !ubase_check(ubuf_pic_plane_size(fld[k], f->pl[p].chroma, &sf, &hsub, &vsub, &mps)) ||
+                !ubase_check(ubuf_pic_plane_read(h->u, f->pl[p].chroma, 0, 0, -1, -1, &qo))) { c->ret = vp_internal(c->rep, "plane %s of the picture", f->pl[p].chroma); break; }
+            /* a field with a number of lines that the vertical subsampling does not divide is mapped without its last line */
+            int rows = (int)vs / vsub, orows = ph(c, h, p);
+            if (rows == 0) { ubuf_pic_plane_unmap(h->u, f->pl[p].chroma, 0, 0, -1, -1); continue; }
+            if (!ubase_check(ubuf_pic_plane_read(fld[k], f->pl[p].chroma, 0, 0, -1, rows * vsub, &qf))) {
+                ubuf_pic_plane_unmap(h->u, f->pl[p].chroma, 0, 0, -1, -1);
+                FAIL("C19/domain/fields", "%s: mapping %d lines of plane %s of field %d (%zu lines) fails", what, rows * vsub, f->pl[p].chroma, k, vs); break;
+            }
+            size_t rb = (size_t)pw(c, h, p) * mps;
+            for (int j = 0; j < rows && !c->ret; j++) {
+                const uint8_t *row = qf + (size_t)j * sf;
+                if (2 * j + k >= orows || !inside(h, row, rb))
+                    FAIL("C19/bounds/fields", "%s: row %d of plane %s of the %s field is not a line of the picture (the plane has %d lines)", what, j, f->pl[p].chroma, k ? "odd" : "even", orows);
+                else if (row != qo + (size_t)(2 * j + k) * so)
+                    FAIL("C19/alias/fields", "%s: row %d of plane %s of the %s field is at offset %td of the area, line %d of the picture is at %td", what, j, f->pl[p].chroma, k ? "odd" : "even",
+                         row - h->base, 2 * j + k, qo + (size_t)(2 * j + k) * so - h->base);
+            }
+            ubuf_pic_plane_unmap(fld[k], f->pl[p].chroma, 0, 0, -1, rows * vsub);
+            ubuf_pic_plane_unmap(h->u, f->pl[p].chroma, 0, 0, -1, -1);
+        }
+    }
+    if (!c->ret && shown < h->v - 1) FAIL("C19/size/fields", "%s: the two fields show %d of the %d lines", what, shown, h->v);
+    ubuf_free(fld[0]); ubuf_free(fld[1]);
+    if (!c->ret) verify_all(c, "fields", what);
+}
+
 static int run(const uint8_t *tp_, size_t len, struct vp_report *rep, unsigned flags)
 {
     static struct ctx ctx;
@@ -980,6 +1033,7 @@ static int run(const uint8_t *tp_, size_t len, struct vp_report *rep, unsigned f
         uint8_t opb = tp_u8(&c->t), op = opb % 16;
         if (!any_live(c)) op = 0;
         if (op == 15 && (opb & 0x10)) { op_clear(c); continue; }
+        if (op == 14 && (opb & 0x30) == 0x30) { op_fields(c); continue; }
         switch (op) {
         case 0: op_alloc(c); break;
         case 1: case 2: case 3: case 4: op_resize(c); break;
